@@ -19,7 +19,7 @@ def _sorted_arr(xs):
 def events(r, kind=None, base=0.0, max_n=24, span=None):
     """A 1-d non-decreasing event-time array on the 1/64 lattice."""
     kinds = ["empty", "single", "two", "regular", "jitter", "dups", "cluster",
-             "random", "random", "regular", "jitter"]
+             "random", "random", "regular", "jitter", "alldup"]
     kind = kind or r.choice(kinds)
     b = int(base * Q)
     if kind == "empty":
@@ -29,6 +29,9 @@ def events(r, kind=None, base=0.0, max_n=24, span=None):
     if kind == "two":
         a = b + r.randrange(0, 640)
         return np.array([a / Q, (a + r.randrange(0, 200)) / Q])
+    if kind == "alldup":
+        a = (b + r.randrange(0, 640)) / Q
+        return np.array([a] * r.randrange(2, 5))
     n = r.randrange(3, max_n + 1)
     if kind == "regular":
         step = r.choice([16, 24, 32, 40, 48, 64])
